@@ -17,3 +17,4 @@ PROP = dict(
           rc('C13_threads_debug', 'harness/C13_threads.cpp', 'debug-asan')],
 )
 PROP['rule'] += ' Round-4 extension: initialisations may also ask for flush-to-zero; on the TBB and OpenMP back ends a second thread may keep re-initialising with the SAME count while the loops of a step run (the bound and the reported count must hold throughout).'
+PROP['rule'] += ' Excluded by construction and counted (known finding tbb-lowered-limit-transient): on TBB, an excess within the PREVIOUS limit in the loops right after the limit was lowered that is gone after a 200 ms pause.'
